@@ -1051,8 +1051,10 @@ func (t *tokenizer) readTimestamp() (string, error) {
 	if c, err = t.read(); err != nil {
 		return "", err
 	}
-	if isDigit(c) {
-		if c, err = t.readDigits(c, &w); err != nil {
+	// Plain digits only: unlike a number, a timestamp's fraction may not use '_' separators.
+	for isDigit(c) {
+		w.WriteByte(byte(c))
+		if c, err = t.read(); err != nil {
 			return "", err
 		}
 	}
